@@ -336,7 +336,7 @@ def parts(tier):
     return [
         Part("history", run_history, strategy=lambda t: W.program(min_steps=10, max_steps=mx, classes=["construct", "derive", "write", "view", "rename"],
                                                                         always=("construct", "derive", "write", "view")),
-             examples=(2500, 120000), shards=(8, 16), floors={"deep_ruled": 0.1}),
+             examples=(2500, 48000), shards=(8, 16), floors={"deep_ruled": 0.1}),
         Part("arith", run_arith, strategy=lambda t: arith_case(t), examples=(1500, 40000), shards=(2, 16)),
         Part("structure", run_struct, strategy=lambda t: struct_case(t), examples=(1500, 40000), shards=(2, 16),
              floors={"zero_rows": 0.2, "repeated_names": 0.2}),
